@@ -377,4 +377,30 @@ N('SEL-alias-key', ['C04'], 'series.py', 'Series._extract_iloc',
 N('SEL-bloc-rename-vars', ['C04', 'C08'], 'type_blocks.py', 'TypeBlocks.extract_bloc',
   'for row_pos, col_pos in zip(*np.nonzero(target)):\n                    coords.append((row_pos, t_start + col_pos))', 'for r, c in zip(*np.nonzero(target)):\n                    coords.append((r, t_start + c))')
 
+# ---------------------------------------------------------------------------------- update (C08)
+B('U-assign-auto-index', ['C08'], 'frame.py', 'FrameAssignILoc.__call__',
+  '                index=self.container._index,\n', '', 'E.passthrough', 'FrameAssignILoc.__call__')
+B('U-assign-drops-name', ['C08'], 'series.py', 'SeriesAssign.__call__',
+  '                index=self.container._index,\n                name=self.container._name)', '                index=self.container._index)', 'E.passthrough', 'SeriesAssign.__call__')
+B('U-astype-columns-from-index', ['C08'], 'frame.py', 'FrameAsType.__call__',
+  'columns=self.container.columns,', 'columns=self.container.index,', 'E.passthrough', 'FrameAsType.__call__')
+B('U-fillna-name-lost', ['C08', 'C14'], 'frame.py', 'Frame.fillna_forward',
+  '                name=self._name,\n', '', 'E.passthrough', 'Frame.fillna_forward')
+B('U-transpose-unswapped', ['C08'], 'frame.py', 'Frame.transpose',
+  'index=self._columns,\n                columns=self._index,', 'index=self._index,\n                columns=self._columns,', 'E.transpose', 'Frame.transpose')
+B('U-drop-labels-other-key', ['C08'], 'series.py', 'Series._drop_iloc',
+  'index = self._index._drop_iloc(key)', 'index = self._index._drop_iloc(None)', 'E.pair[drop]', 'Series._drop_iloc')
+B('U-assign-key-unsorted', ['C08'], 'frame.py', 'FrameAssignILoc.__call__',
+  '                    key_to_ascending_key(\n                    self.key[1],\n                    self.container.shape[1])) #type: ignore [index]', '                    self.key[1]) #type: ignore [index]', 'I.assign-key', 'FrameAssignILoc.__call__')
+B('U-assign-align-raw-key', ['C08'], 'frame.py', 'FrameAssignILoc.__call__',
+  'assigned = self.container._reindex_other_like_iloc(value,\n                    key,\n                    fill_value=fill_value).values', 'assigned = self.container._reindex_other_like_iloc(value,\n                    self.key,\n                    fill_value=fill_value).values', 'I.assign-key', 'FrameAssignILoc.__call__')
+B('U-series-assign-inplace', ['C08', 'C01'], 'series.py', 'SeriesAssign.__call__',
+  'array = self.container.values.copy()', 'array = self.container.values', 'A-R3', 'SeriesAssign.__call__')
+B('U-iloc-assign-view', ['C08', 'C01'], 'type_blocks.py', 'TypeBlocks._assign_from_iloc_by_unit',
+  'assigned_target = assigned_target_pre.copy()', 'assigned_target = assigned_target_pre', 'A-R3', '_assign_from_iloc_by_unit')
+N('U-kwarg-order', ['C08'], 'frame.py', 'FrameAsType.__call__',
+  '                columns=self.container.columns,\n                index=self.container.index,', '                index=self.container.index,\n                columns=self.container.columns,')
+N('U-slot-instead-of-property', ['C08'], 'frame.py', 'FrameAsType.__call__',
+  'index=self.container.index,', 'index=self.container._index,')
+
 VARIANTS = V
